@@ -43,6 +43,7 @@ type SymTab struct {
 	NonceBase uint64
 	Junk12    []byte
 
+	fullAddr  map[string][]byte // symbols whose address is not 20 bytes long: the full payload
 	addr      map[string][]byte // address symbol -> 20 bytes
 	addrRev   map[string]string // hex(20 bytes) -> symbol
 	addrStr   map[string]string // symbol -> bech32
@@ -116,7 +117,7 @@ var MixedCaseMint bool
 
 func NewSymTab(seed int64, moduleAddr []byte, prefix string) *SymTab {
 	t := &SymTab{Seed: seed, Prefix: prefix, ModuleAdr: moduleAddr,
-		addr: map[string][]byte{}, addrRev: map[string]string{}, addrStr: map[string]string{}, strRev: map[string]string{},
+		fullAddr: map[string][]byte{}, addr: map[string][]byte{}, addrRev: map[string]string{}, addrStr: map[string]string{}, strRev: map[string]string{},
 		dom: map[string]uint32{}, domRev: map[uint32]string{}, denom: map[string]string{}, denomRev: map[string]string{},
 		keyByName: map[string]*AttKey{}, attRev: map[string][2]string{}, k32Rev: map[string]string{}}
 	t.MintDenom = "uusdc"
@@ -169,12 +170,38 @@ func NewSymTab(seed int64, moduleAddr []byte, prefix string) *SymTab {
 	}
 	reg("zero", make([]byte, 20))
 	reg("MODULE", moduleAddr)
+	// valid bech32 addresses that are not 20 bytes long: as a string they spell their full payload, padded into a
+	// 32-byte field they are what copy(dst[12:], addr) makes of them
+	regOdd := func(sym string, full []byte) {
+		semantic := make([]byte, 20)
+		copy(semantic, full)
+		t.addr[sym] = semantic
+		t.addrRev[hex.EncodeToString(semantic)] = sym
+		str, err := bech32.ConvertAndEncode(prefix, full)
+		if err != nil {
+			panic(err)
+		}
+		t.addrStr[sym] = str
+		t.strRev[str] = sym
+		t.fullAddr[sym] = full
+	}
+	s8 := prf(seed, "addr:s8", 8)
+	s8[0] |= 1
+	regOdd("s8", s8)
+	l33 := prf(seed, "addr:l33", 33)
+	l33[0] |= 1
+	regOdd("l33", l33)
 	t.dom["NOBLE"] = 4
 	t.domRev[4] = "NOBLE"
 	for i, s := range domSymbols {
 		v := binary.BigEndian.Uint32(prf(seed, "dom:"+s, 4))
-		if i == 0 {
+		switch i {
+		case 0:
 			v = 0 // Ethereum's CCTP domain is 0: zero-valued fields are a realistic corner (proto3 omits them)
+		case 3:
+			v = 0xFFFFFFFF // the largest domain: its store key starts with 0xFF
+		case 4:
+			v = 0xFF000001
 		}
 		if seed%3 == 2 { // adversarial family: share byte patterns, contain '/', differ only in high bytes
 			v = []uint32{0x2f2f2f2f, 0x2f2f2f00, 0x002f2f2f, 0x01000004, 0x04000000}[i]
@@ -247,6 +274,12 @@ func (t *SymTab) AddrString(sym string) string {
 		return s[:len(s)-1] + string(c)
 	case "NON_ASCII":
 		return "noblé" + "1xyz"
+	case "EMPTY_PAYLOAD": // well-formed bech32 (prefix, checksum) around zero bytes: not an address
+		s, _ := bech32.ConvertAndEncode(t.Prefix, []byte{})
+		return s
+	case "LONG_PAYLOAD": // well-formed bech32 around 256 bytes: longer than any address may be
+		s, _ := bech32.ConvertAndEncode(t.Prefix, prf(t.Seed, "longpayload", 256))
+		return s
 	case "none":
 		return ""
 	}
@@ -260,7 +293,7 @@ func (t *SymTab) AddrSym(s string) string {
 	if sym, ok := t.strRev[s]; ok {
 		return sym
 	}
-	for _, c := range []string{"EMPTY", "GARBAGE", "WRONG_PREFIX", "BAD_CHECKSUM", "NON_ASCII"} {
+	for _, c := range []string{"EMPTY", "GARBAGE", "WRONG_PREFIX", "BAD_CHECKSUM", "NON_ASCII", "EMPTY_PAYLOAD", "LONG_PAYLOAD"} {
 		if t.AddrString(c) == s {
 			return c
 		}
